@@ -8,6 +8,16 @@ BASE = "cd /repo && /venv/bin/python -m pytest -ra -q -p no:cacheprovider --time
 
 # id -> dict(level, text, note, technique, design_ref, engine)
 CLAIMS = {
+ "C08": dict(
+  level="model_checking",
+  text="Registry.tla holds the vocabulary as data (15 key spaces, 107 names, three tags) with injectivity ASSUMEs checked by "
+       "TLC; TLC enumerates the complete finite space of 1605 (space, name) pairs; for each pair the driver encodes a "
+       "single-entry object of the space's carrier type through the public API, reads the code with the verifier's own CBOR "
+       "reader and decodes it back (Encode), or checks that a foreign name is rejected (Cross); tags 107/18/96. Judged by TLC.",
+  note="Complete enumeration (exhaustive: true). The table was written from the drafts as known to the author and reviewed "
+       "against keys.py by hand; pinned entries are marked in Registry.tla; it cannot be more right than that review.",
+  technique="TLA+ registry specification with TLC-checked injectivity + complete TLC enumeration replayed into the real encoder/decoder + TLC trace validation",
+  design_ref="DESIGN.md 4.2, 5 (C08)", engine="tlc"),
  "C15": dict(
   level="model_checking",
   text="Keys.tla states KeysJudge (support table; files of the requested type and encoding that belong together) and "
